@@ -38,6 +38,7 @@ var (
 	extra    = flag.String("overlay", "", "extra overlay JSON (mutated sources) to read instead of the files on disk")
 	useTime  = flag.Bool("time", false, "also redirect package time to the virtual clock shim")
 	sortMaps = flag.Bool("sortmaps", true, "iterate maps with ordered keys in key order")
+	ctxOps   = flag.Bool("ctxops", true, "route ctx.Err(), context.Cause and calls of context.CancelFunc values through vrt (visible reads / writes of the cancellation state)")
 	ctxTime  = flag.Bool("ctxtimeout", false, "redirect context.WithTimeout to vtime.WithTimeout (deadline on the harness-owned clock)")
 )
 
@@ -105,6 +106,23 @@ type plan struct {
 	bidi      map[ast.Expr]bool // select receive channel expressions that are bidirectional
 	// calls of context.WithTimeout (only with -ctxtimeout)
 	ctxTimeout map[*ast.CallExpr]bool
+	// context reads and cancellations: ctx.Err(), context.Cause(ctx), calls of CancelFunc / CancelCauseFunc
+	// values. They are not scheduling points, but the runtime has to see them: the result of a read is
+	// part of the reading thread's local state (state key) and a cancellation is a write other threads'
+	// reads depend on (partial-order reduction).
+	ctxCall map[*ast.CallExpr]string
+}
+
+func isCtxNamed(t types.Type, name string) bool {
+	n, ok := t.(*types.Named)
+	if !ok {
+		if a, isA := t.(*types.Alias); isA {
+			return isCtxNamed(types.Unalias(a), name)
+		}
+		return false
+	}
+	o := n.Obj()
+	return o != nil && o.Pkg() != nil && o.Pkg().Path() == "context" && o.Name() == name
 }
 
 func orderedKey(t types.Type) bool {
@@ -113,7 +131,7 @@ func orderedKey(t types.Type) bool {
 }
 
 func (r *rewriter) rewriteFile(f *ast.File) {
-	p := &plan{rangeChan: map[*ast.RangeStmt]bool{}, rangeMap: map[*ast.RangeStmt]bool{}, chanLen: map[*ast.CallExpr]string{}, makeChan: map[*ast.CallExpr]bool{}, closeCall: map[*ast.CallExpr]bool{}, bidi: map[ast.Expr]bool{}, ctxTimeout: map[*ast.CallExpr]bool{}}
+	p := &plan{rangeChan: map[*ast.RangeStmt]bool{}, rangeMap: map[*ast.RangeStmt]bool{}, chanLen: map[*ast.CallExpr]string{}, makeChan: map[*ast.CallExpr]bool{}, closeCall: map[*ast.CallExpr]bool{}, bidi: map[ast.Expr]bool{}, ctxTimeout: map[*ast.CallExpr]bool{}, ctxCall: map[*ast.CallExpr]string{}}
 	ast.Inspect(f, func(n ast.Node) bool {
 		switch x := n.(type) {
 		case *ast.RangeStmt:
@@ -133,6 +151,27 @@ func (r *rewriter) rewriteFile(f *ast.File) {
 				if se, ok := x.Fun.(*ast.SelectorExpr); ok && se.Sel.Name == "WithTimeout" {
 					if fn, ok := r.info.Uses[se.Sel].(*types.Func); ok && fn.Pkg() != nil && fn.Pkg().Path() == "context" {
 						p.ctxTimeout[x] = true
+					}
+				}
+			}
+			if *ctxOps {
+				if se, ok := x.Fun.(*ast.SelectorExpr); ok {
+					if se.Sel.Name == "Err" && len(x.Args) == 0 {
+						if t := r.info.TypeOf(se.X); t != nil && isCtxNamed(t, "Context") {
+							p.ctxCall[x] = "CtxErr"
+						}
+					}
+					if se.Sel.Name == "Cause" && len(x.Args) == 1 {
+						if fn, ok := r.info.Uses[se.Sel].(*types.Func); ok && fn.Pkg() != nil && fn.Pkg().Path() == "context" {
+							p.ctxCall[x] = "CtxCause"
+						}
+					}
+				}
+				if t := r.info.TypeOf(x.Fun); t != nil {
+					if isCtxNamed(t, "CancelFunc") && len(x.Args) == 0 {
+						p.ctxCall[x] = "CancelCall"
+					} else if isCtxNamed(t, "CancelCauseFunc") && len(x.Args) == 1 {
+						p.ctxCall[x] = "CancelCauseCall"
 					}
 				}
 			}
@@ -212,6 +251,18 @@ func (r *rewriter) rewriteFile(f *ast.File) {
 			c.Replace(call(vrtSel("Recv"), x.X))
 		case *ast.CallExpr:
 			switch {
+			case p.ctxCall[x] != "":
+				r.used = true
+				switch name := p.ctxCall[x]; name {
+				case "CtxErr":
+					c.Replace(call(vrtSel(name), x.Fun.(*ast.SelectorExpr).X))
+				case "CtxCause":
+					c.Replace(call(vrtSel(name), x.Args[0]))
+				case "CancelCall":
+					c.Replace(call(vrtSel(name), x.Fun))
+				case "CancelCauseCall":
+					c.Replace(call(vrtSel(name), x.Fun, x.Args[0]))
+				}
 			case p.ctxTimeout[x]:
 				r.ctxt = true
 				x.Fun = &ast.SelectorExpr{X: ast.NewIdent("vtimectx"), Sel: ast.NewIdent("WithTimeout")}
